@@ -33,7 +33,8 @@ COMPONENTS = {
 }
 PROBES = ["final-sample clamp fired (total > N t)", "null mean hit 0 before cut", "null mean > u before cut",
           "null mean negative before cut", "cut at 1", "cut at n-1", "truncation lowered the k-th entry",
-          "call raised", "whole-number sample handed over as ints", "rounds evaluated on views of one buffer"]
+          "call raised", "whole-number sample handed over as ints", "rounds evaluated on views of one buffer",
+          "SPRT alternative recovered from two futures"]
 
 
 def generate(rng, tier):
@@ -212,6 +213,34 @@ def execute(case):
             out.violate("C05.b", path + "/last", f"truncating to {k} draws raised entry {k} from {fa!r} to {fc!r} (N={N})")
         elif not tight(fa, fc):
             out.probe("truncation lowered the k-th entry")
+            # ... which is allowed only when the observed total already exceeds what the null allows
+            if N == D.INF or not (sum(trunc) > N * cfg["t"]):
+                out.violate("C05.b", path + "/lowered-without-cause",
+                            f"truncating to {k} draws lowered entry {k} from {fa!r} to {fc!r} although the total {sum(trunc)} does "
+                            f"not exceed N*t = {N if N == D.INF else N * cfg['t']}")
+    # C05.c for the generalised SPRT: its alternative is internal, but it can be read off the reported history.  With the
+    # same k draws behind them, the factor applied to draw k+1 is (x eta/m + (u-x)(u-eta)/(u-m))/u; solving for eta under
+    # the two futures must give the same alternative.
+    if (cfg["test"] == "WALD_SPRT" and N != D.INF and a is not None and b is not None and k >= 1
+            and len(a[1]) > k and len(b[1]) > k and x[k] != y[0]):
+        u_, t_ = cfg["u"], cfg["t"]
+        m = (N * t_ - sum(x[:k])) / (N - k)
+        pa0, pa1, pb1 = float(a[1][k - 1]), float(a[1][k]), float(b[1][k])
+        if 0 < m < u_ and all(0 < v < 1 for v in (pa0, pa1, pb1)):
+            etas = []
+            for xv, p1 in ((x[k], pa1), (y[0], pb1)):
+                den = xv / m - (u_ - xv) / (u_ - m)
+                if abs(den) < 1e-6:
+                    etas = []
+                    break
+                factor = pa0 / p1
+                etas.append((factor * u_ - (u_ - xv) * u_ / (u_ - m)) / den)
+            if len(etas) == 2:
+                out.probe("SPRT alternative recovered from two futures")
+                if abs(etas[0] - etas[1]) > 1e-7 * max(1.0, abs(etas[0])):
+                    out.violate("C05.c", f"{name}/{cfg['mode']}/implied-alternative",
+                                f"after the same {k} draws the SPRT applies alternative {etas[0]!r} when draw {k + 1} is {x[k]} "
+                                f"but {etas[1]!r} when it is {y[0]} (N={N}, null mean {m!r})")
     # C05.c  alternative / bet applied to draw j ignores draws j, j+1, ...
     for label, fn, used in (("estim", tst.estim, cfg["test"] == "ALPHA_MART"),
                             ("bet", tst.bet, cfg["test"] == "BETTING_MART")):
